@@ -10,7 +10,7 @@ RULE = ("cell = (back-end/build, k, (l,Bgbit), operation, message class, TLWE cl
         "variants against each other; FFT image converts back within 1 unit; blind rotation: phase(out) = X^(sum bara_i s_i) phase(in) "
         "within active-CMux-count times that bound")
 
-LAYOUTS = [(2, 10), (3, 7), (3, 10), (4, 8), (8, 4), (16, 2)]
+LAYOUTS = [(2, 10), (3, 7), (3, 10), (4, 8), (8, 4), (16, 2), (2, 14), (2, 16), (1, 16)]
 
 
 def job(fl, be, k, l, bg, seed, reps, rreps, n="1,4,16", alpha=2.0 ** -25, timeout=1800):
